@@ -61,11 +61,13 @@ class PackedEval:
             res = False      # trait default: IsPacked::no()
             self.memo[key] = res
             return res
-        if type_string.startswith("(") and not any("$" in str(t_) for t_ in tsub.values()):
+        lib_impl = fn.get("crate") == "savefile" and not type_string.startswith(("savefile::Removed", "savefile::AbiRemoved"))
+        if (type_string.startswith("(") or lib_impl) and not any("$" in str(t_) for t_ in tsub.values()):
             # tuple impls (and the helpers they call) are folded concretely from rustc's layout constants
             from .cinterp import ConcreteInterp, Unknown
             an0 = Analyzer(self.facts, no_events, inline=lambda fid: False)
-            ci = ConcreteInterp(self.facts, dict(tsub), lambda t_: self.decide(t_, ver, stack + (type_string,)), an0.size_of)
+            ci = ConcreteInterp(self.facts, dict(tsub), lambda t_: self.decide(t_, ver, stack + (type_string,)), an0.size_of,
+                                may=not type_string.startswith("("))
             try:
                 r = ci.run_fn(fn, [ver])
                 res = r[1] if isinstance(r, tuple) and r and r[0] == "packed" else None
@@ -159,7 +161,15 @@ class Oracle:
             if m is None:
                 if lay.get("adt", "").startswith("savefile::Removed") or lay.get("adt", "").startswith("core::marker::PhantomData"):
                     return (lay["size"] == 0), "zero-sized marker"
-                return False, f"{ty} is not a corpus/primitive type (heap or foreign representation)"
+                # a foreign wrapper whose memory is exactly one inner value (Cell<T>, UnsafeCell<T>, Point3<T> -> Matrix -> ArrayStorage
+                # -> [[T; 3]; 1]): the image is the inner value's image. A foreign struct with two or more stored fields is never
+                # accepted: the order and padding of its fields is not this library's to assume (Isometry3 stores the rotation first
+                # but is written translation first; RefCell stores a borrow counter beside the value)
+                stored = [f for f in lay.get("fields", []) if f["size"] != 0]
+                if len(stored) == 1 and stored[0]["offset"] == 0 and stored[0]["size"] == lay["size"]:
+                    ok, why = self.ok(stored[0]["ty"], ver, depth + 1)
+                    return ok, (f"wrapper of {stored[0]['ty']}: {why}")
+                return False, f"{ty} is not a corpus/primitive type (heap or foreign representation, {len(stored)} stored fields)"
             fields = lay.get("fields", [])
             by_name = {f["name"]: f for f in fields}
             seq = []
